@@ -3,9 +3,12 @@ C10 — polynomial classes: exact functions and the algebra of their coefficient
 
 Proved here: the shift/stretch coefficient transform (every degree, every r₀, every s ≠ 0 of either sign);
 `Angular` products are polynomial products; `cossin(m, n)` holds the coefficients of x^m (1 − x²)^{n/2}.
-The closed-form Abel integrals of the pieces are tied to quadrature by the check (not yet by a theorem).
+`Polynomial.abel` — the coefficient recursion C and the Horner sum of `a(k)` — is the Abel integral of `Polynomial.func`
+(`polynomial_abel`, every degree, every piece, every sample inside the outer radius), by the reduction formula of ∫ rᵏ dy.
+The SPolynomial integrals (`F`) and ApproxGaussian's tolerance remain tied to quadrature by the check.
 -/
 import PyAbel.Model.Polynomial
+import PyAbel.Lemmas.PolyAbel
 import PyAbel.Props.C14
 import PyAbel.Props.C13
 import Mathlib.Data.Nat.Choose.Sum
@@ -111,5 +114,129 @@ theorem cossin_coeffs (m h : ℕ) (hh : h ≤ 4) (x : K) :
   rw [shift]
   interval_cases h <;>
     simp [Finset.sum_range_succ, cossinCoeff, PyAbel.Repr.choose, pow_add] <;> ring
+
+/-! ### `Polynomial.abel` is the Abel transform of `Polynomial.func` -/
+
+section
+open PyAbel
+
+private theorem sqrt0_eq_hc (t : ℝ) : (sqrt0 t : ℝ) = hc t := by
+  unfold sqrt0
+  split_ifs with h
+  · rw [sqrt_real, hc_of_nonneg h.le]
+  · rw [hc_of_nonpos (not_lt.mp h)]
+
+private theorem ln0_eq_log {t : ℝ} (ht : 0 ≤ t) : (ln0 t : ℝ) = Real.log t := by
+  unfold ln0
+  split_ifs with h
+  · rfl
+  · have : t = 0 := le_antisymm (not_lt.mp h) ht
+    rw [this, Real.log_zero]
+
+/-- **`Polynomial(r, r_min, r_max, c).abel` is the Abel integral of its `func`**: for every number of coefficients, every
+    coefficient vector, every piece `0 ≤ r_min < r_max` and every sample `0 ≤ x < r_max`, the value the code assembles from the
+    recursion `C[k−m+2] = C[k−m]·m/(m−1)`, the differences `(y rᵖ)|` and `ln(r + y)|` is
+    `2 ∫ f(√(x² + z²)) dz` with `f = Σ c_k rᵏ` on `[r_min, r_max)` and zero elsewhere. -/
+theorem polynomial_abel (N : ℕ) (c : ℕ → ℝ) (rmin rmax x : ℝ) (h0 : 0 ≤ rmin) (hlt : rmin < rmax) (hx : 0 ≤ x) (hxr : x < rmax) :
+    polyAbelAt N c rmin rmax x = Abel (fun r => if rmin ≤ r ∧ r < rmax then evalN N c r else 0) x := by
+  set a := hc (rmin ^ 2 - x ^ 2) with ha
+  set b := hc (rmax ^ 2 - x ^ 2) with hb
+  have ha0 : 0 ≤ a := hc_nonneg _
+  have hab : a ≤ b := hc_mono (by nlinarith)
+  have hbpos : 0 ≤ rmax ^ 2 - x ^ 2 := by nlinarith
+  have hb2 : b ^ 2 = rmax ^ 2 - x ^ 2 := by rw [hb, hc_of_nonneg hbpos, Real.sq_sqrt hbpos]
+  have hrmax : 0 ≤ rmax := le_trans h0 hlt.le
+  have hlosb : los x b = rmax := by
+    unfold los; rw [hb2, show x ^ 2 + (rmax ^ 2 - x ^ 2) = rmax ^ 2 by ring, Real.sqrt_sq hrmax]
+  -- the lower limit: either the inner radius is met (x ≤ r_min) or the line of sight starts at the axis plane
+  have hlow : ∀ p : ℕ, rmin ^ p * a = a * los x a ^ p := by
+    intro p
+    rcases le_or_gt x rmin with hxm | hxm
+    · have hapos : 0 ≤ rmin ^ 2 - x ^ 2 := by nlinarith
+      have ha2 : a ^ 2 = rmin ^ 2 - x ^ 2 := by rw [ha, hc_of_nonneg hapos, Real.sq_sqrt hapos]
+      have : los x a = rmin := by
+        unfold los; rw [ha2, show x ^ 2 + (rmin ^ 2 - x ^ 2) = rmin ^ 2 by ring, Real.sqrt_sq h0]
+      rw [this]; ring
+    · have : a = 0 := by rw [ha]; exact hc_of_nonpos (by nlinarith)
+      rw [this]; ring
+  have hlnlow : (ln0 ((if rmin < x then x else rmin) + a) : ℝ) = Real.log (a + los x a) := by
+    rcases le_or_gt x rmin with hxm | hxm
+    · rw [if_neg (not_lt.mpr hxm)]
+      have hapos : 0 ≤ rmin ^ 2 - x ^ 2 := by nlinarith
+      have ha2 : a ^ 2 = rmin ^ 2 - x ^ 2 := by rw [ha, hc_of_nonneg hapos, Real.sq_sqrt hapos]
+      have : los x a = rmin := by
+        unfold los; rw [ha2, show x ^ 2 + (rmin ^ 2 - x ^ 2) = rmin ^ 2 by ring, Real.sqrt_sq h0]
+      rw [this, ln0_eq_log (add_nonneg h0 ha0), add_comm]
+    · rw [if_pos hxm]
+      have ha' : a = 0 := by rw [ha]; exact hc_of_nonpos (by nlinarith)
+      have : los x a = x := by rw [ha']; unfold los; simp [Real.sqrt_sq hx]
+      rw [this, ha', ln0_eq_log (by linarith), add_zero, zero_add]
+  -- every term of the coded sum is the integral of its monomial piece
+  have hterm : ∀ k, abelA k (x * x) (fun p => Distr.pow rmax p * (sqrt0 (rmax * rmax - x * x) : ℝ) - Distr.pow rmin p * (sqrt0 (rmin * rmin - x * x) : ℝ))
+        ((ln0 (rmax + (sqrt0 (rmax * rmax - x * x) : ℝ)) : ℝ) - ln0 ((if rmin < x then x else rmin) + (sqrt0 (rmin * rmin - x * x) : ℝ)))
+      = J x k a b := by
+    intro k
+    rw [sqrt0_eq_hc, sqrt0_eq_hc, show rmax * rmax - x * x = rmax ^ 2 - x ^ 2 by ring, show rmin * rmin - x * x = rmin ^ 2 - x ^ 2 by ring,
+      ← ha, ← hb, hlnlow, ln0_eq_log (add_nonneg hrmax (hc_nonneg _)), show rmax + b = b + los x b by rw [hlosb]; ring, show x * x = x ^ 2 by ring]
+    rw [← abelA_eq_J hx a b ha0 hab k]
+    congr 1
+    funext p
+    rw [distr_pow_eq, distr_pow_eq, hlosb, hlow p]; ring
+  unfold polyAbelAt
+  simp only []
+  have e1 : sumRange N (fun k => c k * ((2 : ℕ) : ℝ) * abelA k (x * x)
+        (fun p => Distr.pow rmax p * (sqrt0 (rmax * rmax - x * x) : ℝ) - Distr.pow rmin p * (sqrt0 (rmin * rmin - x * x) : ℝ))
+        ((ln0 (rmax + (sqrt0 (rmax * rmax - x * x) : ℝ)) : ℝ) - ln0 ((if rmin < x then x else rmin) + (sqrt0 (rmin * rmin - x * x) : ℝ))))
+      = sumRange N (fun k => c k * Abel (monoPiece rmin rmax k) x) := by
+    apply sumRange_congr
+    intro k _
+    rw [hterm k, abel_monoPiece rmin rmax x k h0 hlt.le]
+    push_cast; ring
+  rw [e1]
+  obtain ⟨hS, _⟩ := abel_sumRange N c (fun k => monoPiece rmin rmax k) x (fun k _ => losInt_monoPiece rmin rmax x k h0 hlt.le)
+  rw [← hS]
+  congr 1
+  funext r
+  unfold monoPiece
+  by_cases hm : rmin ≤ r ∧ r < rmax
+  · rw [if_pos hm]
+    unfold evalN
+    apply sumRange_congr
+    intro k _
+    rw [Set.indicator_of_mem (show r ∈ Set.Ico rmin rmax from hm), distr_pow_eq]
+  · rw [if_neg hm]
+    have : sumRange N (fun k => c k * Set.indicator (Set.Ico rmin rmax) (fun r => r ^ k) r) = sumRange N (fun _ => (0 : ℝ)) := by
+      apply sumRange_congr
+      intro k _
+      rw [Set.indicator_of_notMem (show r ∉ Set.Ico rmin rmax from hm)]; ring
+    rw [this, sumRange_zero]
+
+/-- **the whole `Polynomial` object**: with the shift/stretch parameters `r_0`, `s`, the transform the code returns (coefficients
+    transformed by the Pascal ⊙ Toeplitz step, then the closed-form integrals) is the Abel integral of
+    `p((r − r_0)/s)` on `[r_min, r_max)` — `func` and `abel` are an exact pair for every degree, shift and stretch -/
+theorem polynomial_abel_shifted (N : ℕ) (c : ℕ → ℝ) (r0 s rmin rmax x : ℝ) (h0 : 0 ≤ rmin) (hlt : rmin < rmax)
+    (hx : 0 ≤ x) (hxr : x < rmax) :
+    polyAbelAt N (ssCoeff N c r0 s) rmin rmax x
+      = Abel (fun r => if rmin ≤ r ∧ r < rmax then evalN N c ((r - r0) / s) else 0) x := by
+  rw [polynomial_abel N _ rmin rmax x h0 hlt hx hxr]
+  congr 1
+  funext r
+  split_ifs
+  · exact shift_stretch N c r0 s r
+  · rfl
+
+/-- non-vacuity: the constant piece 1 on [0, 1) seen from the axis projects to the chord 2 -/
+example : polyAbelAt 1 (fun _ => (1 : ℝ)) 0 1 0 = 2 := by
+  rw [polynomial_abel 1 _ 0 1 0 (le_refl 0) one_pos (le_refl 0) one_pos]
+  have e : (fun r : ℝ => if (0 : ℝ) ≤ r ∧ r < 1 then evalN 1 (fun _ => (1 : ℝ)) r else 0) = Set.indicator (Set.Ico 0 1) 1 := by
+    funext r
+    by_cases h : (0 : ℝ) ≤ r ∧ r < 1
+    · rw [if_pos h, Set.indicator_of_mem (show r ∈ Set.Ico (0 : ℝ) 1 from h)]
+      simp [evalN, sumRange, Distr.pow]
+    · rw [if_neg h, Set.indicator_of_notMem (show r ∉ Set.Ico (0 : ℝ) 1 from h)]
+  rw [e, abel_shell 0 1 0 (le_refl 0) zero_le_one]
+  norm_num [hc]
+
+end
 
 end PyAbel.C10
